@@ -313,7 +313,7 @@ impl Qcow2IoOps for SimFile {
     async fn write_from(&self, offset: u64, buf: &[u8]) -> Qcow2Result<()> {
         let align = (buf.as_ptr() as usize) % 4096;
         let payload = Rc::new(buf.to_vec());
-        let (id, failed) = self.issue(
+        let (id, mut failed) = self.issue(
             Kind::Write,
             offset,
             buf.len(),
@@ -321,6 +321,12 @@ impl Qcow2IoOps for SimFile {
             0,
             Some(payload.clone()),
         );
+        // like EFBIG of a real file system: a write far beyond any sane file size
+        // (a corrupt pointer) fails instead of allocating the gap
+        if offset.saturating_add(buf.len() as u64) > (1 << 30) {
+            failed = true;
+            self.0.borrow_mut().log[id].failed = true;
+        }
         if self.gated() {
             let (ok, _) = IoFut {
                 st: self.0.clone(),
@@ -343,7 +349,12 @@ impl Qcow2IoOps for SimFile {
     }
 
     async fn fallocate(&self, offset: u64, len: usize, flags: u32) -> Qcow2Result<()> {
-        let (id, failed) = self.issue(Kind::Punch, offset, len, 0, flags, None);
+        let (id, mut failed) = self.issue(Kind::Punch, offset, len, 0, flags, None);
+        // fallocate(2) rejects a zero length with EINVAL
+        if len == 0 {
+            failed = true;
+            self.0.borrow_mut().log[id].failed = true;
+        }
         if self.gated() {
             let (ok, _) = IoFut {
                 st: self.0.clone(),
